@@ -92,7 +92,7 @@ theorem applyPack_remove (info : CompId → CompInfo) (w : WM) (t : Nat) (e : Ha
       exact hout hc hx
     unfold packStep packFinish
     simp only [hcc, hnc, Bool.false_eq_true, if_false, if_true, hg, hloc, hla, hne, Bool.or_false,
-      List.map_nil, List.filter_nil, List.foldl_nil, Mask.ofList]
+      Bool.false_or, Bool.not_false, List.map_nil, List.filter_nil, List.foldl_nil, Mask.ofList]
     by_cases hti : pi = (w.getArch (Mask.erase (w.arch pi).mask c) (w.arch pi).shared).2
     · simp [hti.symm, externalMove_self, hstale]
     · cases hmove : (w.getArch (Mask.erase (w.arch pi).mask c) (w.arch pi).shared).1.externalMove info
@@ -248,7 +248,8 @@ theorem applyPack_assign (info : CompId → CompInfo) (w : WM) (t : Nat) (e : Ha
     unfold WM.assign
     simp only [hl, Bool.false_eq_true, if_false, hla]
     unfold packStep packFinish
-    simp only [hpc, Bool.false_eq_true, if_false, hg, hloc, hla, hne, Bool.or_false, List.filter_nil,
+    simp only [hpc, Bool.false_eq_true, if_false, hg, hloc, hla, hne, Bool.or_false, Bool.false_or, Bool.not_false,
+      List.filter_nil,
       List.nil_append, List.map_cons, List.map_nil, Mask.ofList, List.foldl_cons, List.foldl_nil,
       Option.isSome_some, if_true, hskip, hmove, hmask2]
     have hf : ∀ l : Mask, List.filter (fun _ => false) l = [] := fun l => by
